@@ -1,4 +1,157 @@
+//! C38: the real `FileAnnotator` on TLC-generated unique-token histories
+//! (MC_Annotate): `{"par":[[..],..],"file":[[tokens..],..],"s":k,"dom":[..]}`.
+//! The file "f" at commit c holds one line "t<k>\n" per token, in token order.
+//! The record adds, per annotated line, the token, the commit it is blamed on and
+//! whether the origin is Ok (inside the domain) or Err; Trace_Annotate (TLC) judges.
+use std::collections::HashMap;
+use std::panic::AssertUnwindSafe;
+
+use jj_lib::annotate::FileAnnotator;
+use jj_lib::backend::CommitId;
+use jj_lib::commit::Commit;
+use jj_lib::repo::Repo as _;
+use jj_lib::revset::ResolvedRevsetExpression;
+use pollster::FutureExt as _;
+use serde_json::Value;
+use serde_json::json;
+use testutils::TestRepo;
+use testutils::TestTreeBuilder;
+use testutils::repo_path;
+
 use jjconf::util::Opts;
-pub fn run(_opts: &Opts) -> Result<(), String> {
-    Err("not built yet".into())
+use jjconf::util::Out;
+use jjconf::util::catch;
+use jjconf::util::read_ndjson;
+
+struct Case {
+    par: Vec<Vec<usize>>,
+    file: Vec<Vec<u64>>,
+    s: usize,
+    dom: Vec<usize>,
+}
+
+fn nested(v: &Value, k: &str) -> Result<Vec<Vec<u64>>, String> {
+    v.get(k)
+        .and_then(Value::as_array)
+        .ok_or(format!("field {k}"))?
+        .iter()
+        .map(|xs| {
+            xs.as_array()
+                .ok_or(format!("{k}: not an array"))?
+                .iter()
+                .map(|x| x.as_u64().ok_or(format!("{k}: not a number")))
+                .collect()
+        })
+        .collect()
+}
+
+fn parse(v: &Value) -> Result<Case, String> {
+    let par = nested(v, "par")?.into_iter().map(|ps| ps.into_iter().map(|p| p as usize).collect()).collect();
+    let dom = v
+        .get("dom")
+        .and_then(Value::as_array)
+        .ok_or("dom")?
+        .iter()
+        .map(|x| x.as_u64().map(|n| n as usize).ok_or("dom".to_string()))
+        .collect::<Result<_, _>>()?;
+    Ok(Case { par, file: nested(v, "file")?, s: v.get("s").and_then(Value::as_u64).ok_or("s")? as usize, dom })
+}
+
+fn content(tokens: &[u64]) -> String {
+    tokens.iter().map(|t| format!("t{t}\n")).collect()
+}
+
+pub fn run(opts: &Opts) -> Result<(), String> {
+    let mut out = Out::create(&opts.str("out", "c38.ndjson"))?;
+    let raw = read_ndjson(&opts.str("cases", "cases.ndjson"))?;
+    let cases: Vec<Case> = raw.iter().map(parse).collect::<Result<_, _>>()?;
+    let mut i = 0;
+    while i < cases.len() {
+        let test_repo = TestRepo::init();
+        let end = (i + 300).min(cases.len());
+        for k in i..end {
+            out.emit(&record(&test_repo, &cases[k], &raw[k], k));
+        }
+        i = end;
+    }
+    out.finish();
+    Ok(())
+}
+
+fn record(test_repo: &TestRepo, case: &Case, raw: &Value, serial: usize) -> Value {
+    let repo = test_repo.repo.clone();
+    let path = repo_path("f");
+    let r = catch(AssertUnwindSafe(|| {
+        let mut tx = repo.start_transaction();
+        let mut_repo = tx.repo_mut();
+        let root = repo.store().root_commit();
+        let mut commits: Vec<Commit> = vec![];
+        for (i, ps) in case.par.iter().enumerate() {
+            let parent_ids: Vec<CommitId> = if ps.is_empty() {
+                vec![root.id().clone()]
+            } else {
+                ps.iter().map(|p| commits[p - 1].id().clone()).collect()
+            };
+            let mut b = TestTreeBuilder::new(repo.store().clone());
+            if !case.file[i].is_empty() {
+                let _ = b.file(path, content(&case.file[i]));
+            }
+            let tree = b.write_merged_tree();
+            let c = mut_repo
+                .new_commit(parent_ids, tree)
+                .set_description(format!("history {serial} commit {}", i + 1))
+                .write()
+                .block_on()
+                .unwrap();
+            commits.push(c);
+        }
+        let node_of: HashMap<CommitId, usize> =
+            commits.iter().enumerate().map(|(i, c)| (c.id().clone(), i + 1)).collect();
+        let all: Vec<usize> = (1..=case.par.len()).collect();
+        let domain = if case.dom == all {
+            ResolvedRevsetExpression::all()
+        } else {
+            ResolvedRevsetExpression::commits(case.dom.iter().map(|n| commits[n - 1].id().clone()).collect())
+        };
+        // the calls under test
+        let start = &commits[case.s - 1];
+        let mut annotator = FileAnnotator::from_commit(start, path).block_on().unwrap();
+        annotator.compute(&*mut_repo, &domain).block_on().unwrap();
+        let annotation = annotator.to_annotation();
+        let mut lines = vec![];
+        for (origin, line) in annotation.line_origins() {
+            let (ok, lo) = match origin {
+                Ok(lo) => (true, lo),
+                Err(lo) => (false, lo),
+            };
+            let text = String::from_utf8_lossy(line);
+            let token = text
+                .strip_prefix('t')
+                .and_then(|x| x.strip_suffix('\n'))
+                .and_then(|x| x.parse::<u64>().ok())
+                .unwrap_or(0);
+            lines.push(json!({"t": token, "c": node_of.get(&lo.commit_id).copied().unwrap_or(0), "ok": ok,
+                              "ln": lo.line_number + 1}));
+        }
+        let text_ok = annotation.text().to_vec() == content(&case.file[case.s - 1]).into_bytes();
+        json!({"out": lines, "text_ok": text_ok})
+    }));
+    let mut rec = raw.clone();
+    let obj = rec.as_object_mut().unwrap();
+    obj.insert("op".into(), json!("annotate"));
+    match r {
+        Ok(v) => {
+            for (k, val) in v.as_object().unwrap() {
+                obj.insert(k.clone(), val.clone());
+            }
+            obj.insert("panic".into(), json!(""));
+        }
+        Err(msg) => {
+            let short: String = msg.chars().take(160).collect();
+            obj.insert("out".into(), json!([]));
+            obj.insert("text_ok".into(), json!(false));
+            obj.insert("panic".into(), json!(short));
+        }
+    }
+    rec
 }
